@@ -357,15 +357,15 @@ theorem btCaps_paired {N : NFA} {h : Bytes} {at_ ng : Nat} {lab : Lab} (hok : la
       exact ⟨by omega, by omega⟩
 
 /-- (c) without the filter: for an automaton with the group discipline (every compiled pattern of the harness), the
-    Pike VM's capture search IS the reference, for every start offset strictly inside the haystack -/
+    Pike VM's capture search IS the reference, for every start offset `at ≤ len(haystack)` -/
 theorem pikeCaps_eq_btCaps_groups {N : NFA} {h : Bytes} (hna : Pike.anchored N = false) (hd : Pike.SparseDisjoint N)
-    (hR : Pike.RuneOK N h) {at_ : Nat} (hat : at_ < h.size) {ng : Nat} {lab : Lab} (hok : labOK N ng lab = true)
+    (hR : Pike.RuneOK N h) {at_ : Nat} (hat : at_ ≤ h.size) {ng : Nat} {lab : Lab} (hok : labOK N ng lab = true)
     (hng : 1 ≤ ng) : pikeCaps N h at_ (2 * ng) = btCaps N h at_ (2 * ng) :=
   pikeCaps_eq_btCaps_paired hna hd hR hat _ (fun _ hr => btCaps_paired hok hng hr)
 
 /-- C07 for the Pike VM: group 0 is the overall span `(s, e)`; every other group is unset or `s ≤ start ≤ end ≤ e` -/
 theorem pikeCaps_groups {N : NFA} {h : Bytes} (hna : Pike.anchored N = false) (hd : Pike.SparseDisjoint N)
-    (hR : Pike.RuneOK N h) {at_ : Nat} (hat : at_ < h.size) {ng : Nat} {lab : Lab} (hok : labOK N ng lab = true)
+    (hR : Pike.RuneOK N h) {at_ : Nat} (hat : at_ ≤ h.size) {ng : Nat} {lab : Lab} (hok : labOK N ng lab = true)
     (hng : 1 ≤ ng) {sl : Slots} (hr : pikeCaps N h at_ (2 * ng) = some sl) :
     ∀ i, 1 ≤ i → i < ng →
       (sl.getD (2*i) (-1) = -1 ∧ sl.getD (2*i+1) (-1) = -1) ∨
